@@ -210,8 +210,8 @@ impl Prop for C16 {
 	}
 	fn budget(&self, tier: Tier) -> (u64, u64) {
 		match tier {
-			Tier::Quick => (3_000, 75),
-			Tier::Thorough => (100_000, 900),
+			Tier::Quick => (8_000, 90),
+			Tier::Thorough => (150_000, 1200),
 		}
 	}
 
